@@ -194,6 +194,34 @@ Section Structure.
       destruct (IHx vx eq_refl) as (m0 & m & N & -> & M). exists m0, (b_fromnat O m). simpl. auto.
   Qed.
 
+  (* in-place item assignment is pointwise replacement: entry i becomes the new parameters, every
+     other entry and all meta data are unchanged, so every query (a function of the parameters of
+     the entry) equals the query on a fresh message with the current parameters *)
+  Lemma replace_nth_same {A} (l : list A) (i : nat) (x : A) : (i < length l)%nat ->
+    nth_error (replace_nth l i x) i = Some x.
+  Proof. revert i. induction l as [|y l IH]; intros [|i] H; simpl in *; try lia; [reflexivity | apply IH; lia]. Qed.
+  Lemma replace_nth_other {A} (l : list A) (i j : nat) (x : A) : i <> j ->
+    nth_error (replace_nth l i x) j = nth_error l j.
+  Proof. revert i j. induction l as [|y l IH]; intros [|i] [|j] H; simpl; try reflexivity; try congruence. apply IH. congruence. Qed.
+  Lemma replace_nth_length {A} (l : list A) (i : nat) (x : A) : length (replace_nth l i x) = length l.
+  Proof. revert i. induction l as [|y l IH]; intros [|i]; simpl; auto. Qed.
+
+  Lemma setitem_pointwise (a : msgT) (i : nat) (p : list T) : (i < length (elems a))%nat ->
+    nth_error (elems (setitem a i p)) i = Some p
+    /\ (forall j, j <> i -> nth_error (elems (setitem a i p)) j = nth_error (elems a) j)
+    /\ nth_error (nat_of O (setitem a i p)) i = Some (to_nat O (fam a) p)
+    /\ (forall j, j <> i -> nth_error (nat_of O (setitem a i p)) j = nth_error (nat_of O a) j)
+    /\ length (elems (setitem a i p)) = length (elems a)
+    /\ bmeta (setitem a i p) = bmeta a /\ fam (setitem a i p) = fam a /\ lognorm (setitem a i p) = lognorm a.
+  Proof.
+    intro H. unfold setitem, nat_of; simpl. repeat split.
+    - apply replace_nth_same. exact H.
+    - intros j Hj. apply replace_nth_other. congruence.
+    - rewrite nth_error_map, replace_nth_same by exact H. reflexivity.
+    - intros j Hj. rewrite !nth_error_map, replace_nth_other by congruence. reflexivity.
+    - apply replace_nth_length.
+  Qed.
+
   (* the arithmetic of a transformed message is the arithmetic of its base *)
   Lemma transformed_div_mul V s i l h (a : msgT) s' i' l' h' (b : msgT) :
     eval O V [MT s i l h a; MT s' i' l' h' b] (EDiv (EMul (EVar 0) (EVar 1)) (EVar 1))
